@@ -111,10 +111,12 @@ Steps ==
                  a \in Objs, x \in BadInputs, g \in BOOLEAN}
         ELSE {})
   \cup (IF "uwire" \in Global
-        THEN {[op |-> "unmarshal", o |-> a, b |-> x, merge |-> g, partial |-> TRUE, discard |-> dd, nolazy |-> z, limit |-> lm] :
+        THEN {[op |-> "unmarshal", o |-> a, b |-> x, merge |-> g, partial |-> pp, discard |-> dd, nolazy |-> z, limit |-> lm] :
                  a \in (IF "uwall" \in Global THEN Objs ELSE {0}), x \in WireInputs,
                  g \in (IF "uwmerge" \in Global THEN BOOLEAN ELSE {FALSE}), z \in BOOLEAN, lm \in WireLimits,
-                 dd \in (IF "uwdisc" \in Global THEN BOOLEAN ELSE {FALSE})}
+                 dd \in (IF "uwdisc" \in Global THEN BOOLEAN ELSE {FALSE}),
+                 \* "uwstrict": also without AllowPartial (the required check makes the lazy decoder take other paths)
+                 pp \in (IF "uwstrict" \in Global THEN BOOLEAN ELSE {TRUE})}
         ELSE {})
   \cup (IF "evo" \in Global     \* every deletion of one or two of the touched top-level fields
         THEN {s \in {[op |-> "evo", o |-> a, o2 |-> b, del |-> d, det |-> FALSE] : a, b \in Objs, d \in EvoDels} : s.o # s.o2}
